@@ -36,39 +36,66 @@ theorem setS_sbx_other (w : World) (i j : Nat) (s : SbxObj) (h : j ≠ i) : (w.s
 @[simp] theorem setS_owners (w : World) (i : Nat) (s : SbxObj) : (w.setS i s).owners = w.owners := rfl
 @[simp] theorem setS_reg (w : World) (i : Nat) (s : SbxObj) : (w.setS i s).reg = w.reg := rfl
 @[simp] theorem setS_max (w : World) (i : Nat) (s : SbxObj) : (w.setS i s).max = w.max := rfl
-@[simp] theorem setO_sbx (w : World) (o : Nat) (v : Option (Nat × Nat)) : (w.setO o v).sbx = w.sbx := rfl
-@[simp] theorem setO_reg (w : World) (o : Nat) (v : Option (Nat × Nat)) : (w.setO o v).reg = w.reg := rfl
-@[simp] theorem setO_max (w : World) (o : Nat) (v : Option (Nat × Nat)) : (w.setO o v).max = w.max := rfl
-@[simp] theorem setO_same (w : World) (o : Nat) (v : Option (Nat × Nat)) : (w.setO o v).owners o = v := by simp [World.setO]
-theorem setO_other (w : World) (o p : Nat) (v : Option (Nat × Nat)) (h : p ≠ o) : (w.setO o v).owners p = w.owners p := by
+@[simp] theorem setO_sbx (w : World) (o : Nat) (v : Option (Nat × Nat × Nat)) : (w.setO o v).sbx = w.sbx := rfl
+@[simp] theorem setO_reg (w : World) (o : Nat) (v : Option (Nat × Nat × Nat)) : (w.setO o v).reg = w.reg := rfl
+@[simp] theorem setO_max (w : World) (o : Nat) (v : Option (Nat × Nat × Nat)) : (w.setO o v).max = w.max := rfl
+@[simp] theorem setO_same (w : World) (o : Nat) (v : Option (Nat × Nat × Nat)) : (w.setO o v).owners o = v := by simp [World.setO]
+theorem setO_other (w : World) (o p : Nat) (v : Option (Nat × Nat × Nat)) (h : p ≠ o) : (w.setO o v).owners p = w.owners p := by
   simp [World.setO, h]
 
+
+/-- how `create` succeeds -/
+theorem create_cases (w w' : World) (i : Nat) (ok : Bool) (lib r : Nat) (b : Bool) (h : w.create i ok lib r = some (w', b)) :
+    (w.sbx i).status = .notCreated ∧ r ∉ w.mapped ∧ b = ok ∧
+    w' = (if ok then { w.setS i { w.sbx i with status := .created, lib := lib, rgn := r } with reg := w.reg ++ [i], mapped := r :: w.mapped }
+          else { w.setS i { w.sbx i with status := .initializing, rgn := r } with mapped := r :: w.mapped }) := by
+  unfold World.create at h
+  by_cases h1 : (w.sbx i).status ≠ .notCreated
+  · simp [h1] at h
+  · have h1' : (w.sbx i).status = .notCreated := by simpa using h1
+    by_cases h2 : r ∈ w.mapped
+    · simp [h1, h2] at h
+    · cases ok <;> simp only [h1, h2, if_false, if_true, Bool.false_eq_true, Option.some.injEq, Prod.mk.injEq] at h <;>
+        obtain ⟨rfl, rfl⟩ := h <;> exact ⟨h1', h2, rfl, rfl⟩
+
+theorem create_none_of_status (w : World) (i : Nat) (ok : Bool) (lib r : Nat) (h : (w.sbx i).status ≠ .notCreated) :
+    w.create i ok lib r = none := by simp [World.create, h]
+
+theorem create_some (w : World) (i : Nat) (ok : Bool) (lib r : Nat) (h : (w.sbx i).status = .notCreated) (hr : r ∉ w.mapped) :
+    ∃ w', w.create i ok lib r = some (w', ok) := by
+  cases ok <;> simp [World.create, h, hr]
 
 /-- the three ways `release` can succeed -/
 theorem release_cases (w w' : World) (o : Nat) (h : w.release o = some w') :
     (w.owners o = none ∧ w' = w) ∨
-    (∃ i f, w.owners o = some (i, f) ∧ (w.sbx i).status ≠ .created ∧ w' = w.setO o none) ∨
-    (∃ i f, w.owners o = some (i, f) ∧ (w.sbx i).status = .created ∧ (w.sbx i).keys f = true ∧
+    (∃ i f n, w.owners o = some (i, f, n) ∧ ((w.sbx i).status ≠ .created ∨ (w.sbx i).inc ≠ n) ∧ w' = w.setO o none) ∨
+    (∃ i f n, w.owners o = some (i, f, n) ∧ (w.sbx i).status = .created ∧ (w.sbx i).inc = n ∧ (w.sbx i).keys f = true ∧
       w' = (w.setO o none).setS i (releasedObj w i f)) := by
   unfold World.release at h
   cases ho : w.owners o with
   | none => rw [ho] at h; simp at h; exact Or.inl ⟨rfl, h.symm⟩
   | some p =>
-    obtain ⟨i, f⟩ := p
+    obtain ⟨i, f, n⟩ := p
     rw [ho] at h
     simp only at h
-    by_cases h1 : (w.sbx i).status = .created
-    · by_cases h2 : (w.sbx i).keys f = true
+    by_cases h1 : (w.sbx i).status ≠ .created ∨ (w.sbx i).inc ≠ n
+    · right; left
+      refine ⟨i, f, n, rfl, h1, ?_⟩
+      simp only [h1, if_true, Option.some.injEq] at h
+      exact h.symm
+    · have h1a : (w.sbx i).status = .created := by
+        cases hs : (w.sbx i).status <;> simp_all
+      have h1b : (w.sbx i).inc = n := by
+        by_cases e : (w.sbx i).inc = n
+        · exact e
+        · exact absurd (Or.inr e) h1
+      by_cases h2 : (w.sbx i).keys f = true
       · right; right
-        refine ⟨i, f, rfl, h1, h2, ?_⟩
-        simp only [h1, ne_eq, not_true_eq_false, if_false, h2, Bool.true_eq_false, Option.some.injEq] at h
+        refine ⟨i, f, n, rfl, h1a, h1b, h2, ?_⟩
+        simp only [h1, if_false, h2, Bool.true_eq_false, Option.some.injEq] at h
         exact h.symm
       · have h2' : (w.sbx i).keys f = false := by simpa using h2
         simp [h1, h2'] at h
-    · right; left
-      refine ⟨i, f, rfl, h1, ?_⟩
-      simp only [ne_eq, h1, not_false_eq_true, if_true, Option.some.injEq] at h
-      exact h.symm
 
 theorem releasedObj_keys (w : World) (i f : Nat) :
     (releasedObj w i f).keys = fun g => if g = f then false else (w.sbx i).keys g := rfl
@@ -79,7 +106,7 @@ theorem releasedObj_slots (w : World) (i f k : Nat) (hs : slotOf w (w.sbx i) f =
 /-- how `registerNew` succeeds -/
 theorem registerNew_cases (w w' : World) (i t f k : Nat) (h : w.registerNew i t f = some (w', k)) :
     (w.sbx i).status = .created ∧ (w.sbx i).keys f = false ∧ firstFree w (w.sbx i) = some k ∧
-    w' = (w.setS i (registeredObj w i f k)).setO t (some (i, f)) := by
+    w' = (w.setS i (registeredObj w i f k)).setO t (some (i, f, (w.sbx i).inc)) := by
   unfold World.registerNew at h
   by_cases h1 : (w.sbx i).status = .created
   · by_cases h2 : (w.sbx i).keys f = true
